@@ -20,6 +20,8 @@ import (
 	"encoding/json"
 	"sync"
 	"time"
+
+	"github.com/Comcast/rulio/core/verifhook"
 )
 
 type RawFact struct {
@@ -171,6 +173,7 @@ func (s *LinearState) Add(ctx *Context, id string, x Map) (string, error) {
 	if err = s.store.Add(ctx, s.Name, pair); err != nil {
 		return id, err
 	}
+	verifhook.Point("state.add.gap")
 
 	if s.addHook != nil {
 		if err := s.addHook(ctx, s, id, m, ctx.GetLoc().loading); err != nil {
@@ -219,6 +222,7 @@ func (s *LinearState) rem(ctx *Context, id string, lock bool) (bool, error) {
 		Log(ERROR, ctx, "LinearState.rem", "id", id, "error", err)
 		return false, err
 	}
+	verifhook.Point("state.rem.gap")
 	// Maybe protect the store (above), too.
 	if lock {
 		s.slock(ctx, false)
@@ -413,6 +417,7 @@ func (s *LinearState) FindCachedRules(ctx *Context, event Map) (map[string]*Rule
 	if err != nil {
 		return nil, err
 	}
+	verifhook.Point("state.rulecache.gap")
 
 	acc := make(map[string]*Rule)
 	for id, r := range rules {
